@@ -75,6 +75,12 @@ ExprReduced == {C0("id"), C0("psid"), C0("expr"), C0("grp"), C0("new0"), C0("com
                 C0("yield"), CN("call", 1), CN("newa", 0), CO("arrow", ""),
                 CO("bin","??"), CO("bin","||"), CO("bin","=="), CO("bin","in"), CO("bin","+"), CO("bin","*"), CO("bin","**"),
                 CO("asg","="), CO("un","-"), CO("un","await"), CO("post","++")}
+\* the other representatives of each level (thorough tier)
+ExprReduced2 == {C0("id"), C0("psid"), C0("expr"), C0("grp"), C0("idx"), C0("oidx"), C0("yields"), C0("spread"), CN("call", 1), CN("ocall", 1), CN("newa", 1), CN("tag", 0), C0("new0"), CO("arrow", "async"),
+                 CO("bin","&&"), CO("bin","^"), CO("bin","&"), CO("bin","!="), CO("bin","instanceof"), CO("bin",">>>"), CO("bin","-"), CO("bin","%"), CO("bin","<="), CO("bin","|"),
+                 CO("asg","**="), CO("asg","&&="), CO("un","typeof"), CO("un","!"), CO("pre","--"), C0("cond")}
+\* few operators, deeper (thorough tier)
+ExprTiny == {C0("id"), C0("expr"), C0("grp"), C0("cond"), C0("dot"), CN("call", 1), CO("bin","||"), CO("bin","+"), CO("bin","**"), CO("asg","="), CO("un","-")}
 \* every kind of leaf / primary expression under one operator
 LeafCons == {C0("id"), C0("expr"), C0("nt"), C0("im"), C0("yield0"), CN("arr", 0), CO("arr", "h0"), CN("obj", 0), CN("ps", 0), CN("blk", 0),
              CN("cls", 0), CN("clsn", 0), CON("cls", "x", 0), CON("clsn", "", 1), CON("clsn", "x", 1), CN("field", 0), C0("psh"), CN("obj", 1), CN("arr", 2), CON("arr", "h1", 1), CON("arr", "1h", 1),
@@ -150,7 +156,7 @@ ClassCons == {C0("id"), C0("expr"), CN("ps", 0), CN("ps", 1), C0("bid"), CN("blk
              \cup {CO("meth", k) : k \in MethKinds} \cup {CO("smeth", k) : k \in {"", "set"}} \cup {CO("pmeth2", k) : k \in {"", "get"}}
              \cup {CO("cmeth", k) : k \in {"", "async*"}}
 
-AllCons == ExprFull \cup ExprReduced \cup LeafCons \cup NegCons \cup StmtCons \cup StmtRed \cup AsiCons \cup BindCons \cup BindDeep \cup ForIn \cup ForInPat \cup ArrowPat \cup AsgPat \cup ClassBody \cup ClassAsi \cup ClassCons
+AllCons == ExprFull \cup ExprReduced \cup ExprReduced2 \cup ExprTiny \cup LeafCons \cup NegCons \cup StmtCons \cup StmtRed \cup AsiCons \cup BindCons \cup BindDeep \cup ForIn \cup ForInPat \cup ArrowPat \cup AsgPat \cup ClassBody \cup ClassAsi \cup ClassCons
 \* configurations for -simulate: everything at once
 SimCons == AllCons \ {c \in AllCons : c.k \in {"badasg", "dup"}}
 
